@@ -367,7 +367,9 @@ impl Biclique for AdjacencyList {
         assert!(m > 0, "m = {m} must be greater than zero");
         assert!(n > 0, "n = {n} must be greater than zero");
 
-        let order = m + n;
+        let order = m
+            .checked_add(n)
+            .expect("a digraph has at most `usize::MAX` vertices");
         let clique_1 = (0..m).collect::<BTreeSet<_>>();
         let clique_2 = (m..order).collect::<BTreeSet<_>>();
         let mut arcs = Vec::with_capacity(order);
